@@ -43,7 +43,8 @@ var (
 	WantBasePtr unsafe.Pointer
 	WantX       int64 = 41
 	WantS             = "str"
-	GenK        int64 // constant of the generic method about to be called (set by the call function)
+	WantF             = 2.5 // float parameter (parameter kind 6)
+	GenK        int64       // constant of the generic method about to be called (set by the call function)
 )
 
 // Stack-passed parameters (parameter kind 3).
